@@ -20,7 +20,8 @@ EXIT_CRASH = 77
 
 
 class FsMon:
-    def __init__(self, root, crash_at=None, tear=None, trace_path=None):
+    def __init__(self, root, crash_at=None, tear=None, trace_path=None, crash_children=False):
+        self.crash_children = crash_children  # die in a forked worker process instead of the installing process
         self.root = os.path.realpath(root)
         self.n = 0
         self.crash_at = crash_at
@@ -44,11 +45,12 @@ class FsMon:
         if kind == "rename":
             extra = os.path.relpath(os.path.realpath(os.fspath(extra)), self.root) if self.inside(extra) else str(extra)
         rec = [self.n, kind, rel, extra, os.getpid()]
-        if self.crash_at == self.n and os.getpid() == self.pid:
+        hit = self.crash_at == self.n and ((os.getpid() == self.pid) != self.crash_children)
+        if hit:
             rec.append("CRASH" if self.tear is None else f"TEAR{self.tear}")
         if self.trace_fd is not None:
             os.write(self.trace_fd, (json.dumps(rec) + "\n").encode())
-        if self.crash_at == self.n and os.getpid() == self.pid:
+        if hit:
             if kind == "data" and self.tear is not None and payload is not None:
                 os.write(fd, payload[: self.tear])
             os._exit(EXIT_CRASH)
